@@ -131,6 +131,19 @@ fn c06_consumers(v: &Messy, rep: &mut Rep) -> Result<(), String> {
     let det = std::thread::spawn(move || adlt::lifecycle::parse_lifecycles_buffered_from_stream(lcs_w, rx, &|m| tx2.send(m)));
     // real consumer: the export plugin with a lifecycle selection resolves every new lifecycle id (and panics on an unknown one)
     let with_export = v.1 % 4 == 1;
+    // real consumer 2: the time sorter reads the start time of every message's lifecycle from the shared table
+    if v.1 % 4 == 2 {
+        let lr = lcs_r.clone();
+        let out = std::cell::RefCell::new(vec![]);
+        let r = std::panic::catch_unwind(std::panic::AssertUnwindSafe(|| adlt::utils::buffer_sort_messages(rx2, &|m| { out.borrow_mut().push(m); Ok(()) }, &lr, 3, 2_000_000)));
+        let _w = det.join().map_err(|_| "detector thread panicked".to_string())?;
+        ensure!(matches!(r, Ok(Ok(()))), "time sorter behind the detector panicked or failed");
+        let out = out.into_inner();
+        ensure_eq!(out.len(), n, "time sorter behind the detector: number of messages");
+        rep.label("sorter_as_consumer");
+        rep.nontrivial = out.iter().map(|m| m.lifecycle).collect::<std::collections::HashSet<_>>().len() >= 2;
+        return Ok(());
+    }
     let sbx = crate::props::c14::Sandbox::new("c06exp");
     let cfg = serde_json::json!({"name":"Export","exportFileName":sbx.path("e.dlt").to_str().unwrap(),"filters":[],"lifecyclesToKeep":[{"ecu":"ECUA","startTime":1,"endTime":2}]});
     let mut export = adlt::plugins::export::ExportPlugin::from_json(cfg.as_object().unwrap()).map_err(|e| format!("export plugin: {}", e))?;
